@@ -39,6 +39,7 @@ def required(tier):
         "shape.terminal_action": 100,
         "shape.rule_defined_in_two_places": 100,
         "builtin.cases": 300,
+        "shape.other_action_table_used_before": 100,
         "reentrant.cases": 300,
         "cover.call_actions": 20,
         "cover._call_reduce_action": 20,
@@ -204,13 +205,27 @@ def run(ctx):
     cover.report(ctx)
 
 
-def build_all(text, g, spec):
+def build_all(text, g, spec, decoy=False):
     acts = make_actions(g, spec)
-    fly = pgx.lr(pgx.grammar(text), actions=acts)
-    deferred = pgx.lr(pgx.grammar(text), actions=acts, build_tree=True)
-    glr = pgx.glr(pgx.grammar(text), actions=acts)
+
+    def gr():
+        pg = pgx.grammar(text)
+        if decoy and acts:
+            # another parser with another (complete) action table was built from this Grammar
+            # object before: the action set given now is what counts
+            dec = {n: (lambda name: (lambda context, nodes, **kw: ("DECOY", name)))(n) for n in g.nts}
+            dec.update({t: (lambda name: (lambda context, value: ("DECOY-T", name)))(t) for t in g.terms})
+            try:
+                pgx.lr(pg, actions=dec)
+            except Exception:  # noqa: BLE001
+                pgx.glr(pg, actions=dec)
+        return pg
+
+    fly = pgx.lr(gr(), actions=acts)
+    deferred = pgx.lr(gr(), actions=acts, build_tree=True)
+    glr = pgx.glr(gr(), actions=acts)
     # build the tree *and* call the actions on the way (their results are discarded): the tree must stay intact
-    deferred.during = pgx.lr(pgx.grammar(text), actions=acts, build_tree=True, call_actions_during_tree_build=True)
+    deferred.during = pgx.lr(gr(), actions=acts, build_tree=True, call_actions_during_tree_build=True)
     return fly, deferred, glr
 
 
@@ -218,9 +233,12 @@ def one_grammar(ctx, g, alphabet, maxlen):
     spec = make_spec(ctx, g)
     inline = ctx.rng.random() < 0.3
     text = spec_text(g, spec, inline)
+    decoy = ctx.rng.random() < 0.3
+    if decoy:
+        ctx.count("shape.other_action_table_used_before")
     try:
         with pgx.watchdog(20):
-            fly, deferred, glr = build_all(text, g, spec)
+            fly, deferred, glr = build_all(text, g, spec, decoy)
     except Exception as e:  # noqa: BLE001
         ctx.count("construction_failed:" + type(e).__name__)
         return
@@ -237,7 +255,7 @@ def one_grammar(ctx, g, alphabet, maxlen):
         ctx.count("shape.terminal_action")
     if spec.get("split"):
         ctx.count("shape.rule_defined_in_two_places")
-    case0 = {"grammar": text, "g": g.to_json(), "spec": spec}
+    case0 = {"grammar": text, "g": g.to_json(), "spec": spec, "decoy": decoy}
     if len(alphabet) >= 3 and maxlen > 3:
         maxlen = 3
     for w in cfg.all_strings(alphabet, maxlen):
@@ -476,5 +494,5 @@ def replay(case, ctx):
     if case.get("builtin"):
         return
     g = cfg.G.from_json(case["g"])
-    fly, deferred, glr = build_all(case["grammar"], g, case["spec"])
+    fly, deferred, glr = build_all(case["grammar"], g, case["spec"], case.get("decoy", False))
     check_input(ctx, g, case["spec"], fly, deferred, glr, case, case["input"])
